@@ -906,40 +906,48 @@ def ob_locate(et, how, seed):
     return Verdict(DISCHARGED, backend="native gmsh mesh", detail=f"err {r['err']:.1e}")
 
 
-def _native_locate_dense(et, organised):
+def _native_locate_dense(et, organised, S=1.0):
     """finer box meshes: every midpoint of a pair of vertices of an element (edges and, for quadrangles / hexahedra / prisms, diagonals), every element centre and every
     node, queried ONE AT A TIME and all at once: a linear field is reproduced."""
     from EasyFEA import ElemType
     from EasyFEA.Geoms import Domain, Point
-    dom = Domain(Point(), Point(1, 1), 0.25)
+    dom = Domain(Point(), Point(S, S), 0.25 * S)
     dim = _dim(et)
     if dim == 2:
         mesh = dom.Mesh_2D([], ElemType[et], isOrganised=organised)
     else:
-        mesh = dom.Mesh_Extrude([], [0, 0, 1], [4], ElemType[et], isOrganised=organised)
+        mesh = dom.Mesh_Extrude([], [0, 0, S], [4], ElemType[et], isOrganised=organised)
+    turn = (lambda X_: X_)
+    if S != 1.0:
+        # a generic orientation, so that edges are not aligned with the axes and the coordinates carry round-off proportional to the size
+        from EasyFEA.Geoms import Rotate as _Rot
+        ax = (0, 0, 1) if dim == 2 else (1, 2, 0.5)
+        mesh.Rotate(33.0, (0, 0, 0), ax)
+        turn = (lambda X_: _Rot(X_, 33.0, (0, 0, 0), ax))
     co = np.asarray(mesh.coord)
     g = mesh.groupElem
     nv = {"TRI": 3, "QUAD": 4, "TETRA": 4, "HEXA": 8, "PRISM": 6}["".join(ch for ch in et if not ch.isdigit())]
     con = np.asarray(g.connect)[:, :nv]
-    pts = set()
+    pts = {}          # rounded key (to merge the copies of a shared point) -> the point as computed from the node coordinates
     for row in con:
         P = co[row]
-        pts.add(tuple(np.round(P.mean(0), 12)))
+        pts.setdefault(tuple(np.round(P.mean(0) / S, 9)), P.mean(0))
         for i in range(nv):
             for j in range(i + 1, nv):
-                pts.add(tuple(np.round((P[i] + P[j]) / 2, 12)))
-    pts = np.array(sorted(pts))
+                pts.setdefault(tuple(np.round((P[i] + P[j]) / 2 / S, 9)), (P[i] + P[j]) / 2)
+    pts = np.array([pts[k] for k in sorted(pts)])
     rng = np.random.default_rng(2)
     if len(pts) > 350:
         pts = pts[rng.choice(len(pts), 350, replace=False)]
-    f = lambda X_: 1 + 2 * X_[:, 0] - 3 * X_[:, 1] + 0.5 * X_[:, 2]
+    f = lambda X_: 1 + (2 * X_[:, 0] - 3 * X_[:, 1] + 0.5 * X_[:, 2]) / S
     u = f(co)
     want = f(pts)
     single = np.array([float(np.ravel(mesh.Evaluate_dofsValues_at_coordinates(p_[None, :], u))[0]) for p_ in pts])
     batch = np.ravel(mesh.Evaluate_dofsValues_at_coordinates(pts, u))
     # random interior points, in one batch
     rp = np.zeros((800, 3))
-    rp[:, :dim] = rng.uniform(0.01, 0.99, size=(800, dim))
+    rp[:, :dim] = S * rng.uniform(0.01, 0.99, size=(800, dim))
+    rp = np.asarray(turn(rp))
     rb = np.ravel(mesh.Evaluate_dofsValues_at_coordinates(rp, u))
     er = np.abs(rb - f(rp))
     es, eb = np.abs(single - want), np.concatenate([np.abs(batch - want), er])
@@ -948,8 +956,8 @@ def _native_locate_dense(et, organised):
                 worst_point=pts[k].tolist(), got=float(single[k]), expected=float(want[k]))
 
 
-def ob_locate_dense(et, organised):
-    r = _native_locate_dense(et, organised)
+def ob_locate_dense(et, organised, S=1.0):
+    r = _native_locate_dense(et, organised, S)
     if r["single_wrong"] or r["batch_wrong"]:
         raise Refuted(f"{et} box mesh ({'structured' if organised else 'unstructured'}, {r['Ne']} elements): a linear nodal field evaluated at {r['nq']} points (edge / diagonal midpoints, element centres) is wrong "
                       f"at {r['single_wrong']} points queried one at a time and {r['batch_wrong']} queried together; e.g. at {r['worst_point']} the value is {r['got']:.6g}, expected {r['expected']:.6g}",
@@ -1211,6 +1219,10 @@ def build(tier, seed):
         obs.append(Ob(f"C08.locate.dense.{et}.{'structured' if organised else 'unstructured'}", ob_locate_dense, (et, organised), "X", (f"{GE}::_GroupElem._Get_nearby_elements", f"{GE}::_GroupElem._Get_Mapping"),
                       bound="one box mesh (64-800 elements), up to 350 special query points + 800 random interior points", timeout=1200,
                       clause="points on edges / diagonals / element centres, queried singly and in a batch, are located and a linear field is reproduced (1e-6)"))
+    for et, organised, S in (("TRI3", False, 1e4), ("TRI3", False, 1e6), ("QUAD4", True, 1e4), ("TETRA4", False, 1e4), ("TRI3", False, 1e-4), ("HEXA8", True, 1e5)):
+        obs.append(Ob(f"C08.locate.scaled.{et}.L{S:g}", ob_locate_dense, (et, organised, S), "X", (f"{GE}::_GroupElem.Get_pointsInElem", f"{GE}::_GroupElem._Get_coord_Near"),
+                      bound="one box mesh of side L (64-800 elements), up to 350 special query points + 800 random interior points", timeout=1200,
+                      clause="point location does not depend on the unit of length: points on edges / diagonals / centres of a mesh of side L are located, a linear field is reproduced"))
     for et in ("HEXA8", "PRISM6"):
         obs.append(Ob(f"C08.locate.warped.{et}", ob_locate_warped, (et,), "X", (f"{GE}::_GroupElem.Get_pointsInElem",), bound="one 64 / 128-element box mesh with perturbed interior nodes, 1500 points", timeout=1200,
                       clause="points inside general elements with non-planar faces are located; a linear field is reproduced"))
